@@ -22,6 +22,7 @@ mod c17;
 mod c18;
 mod c19;
 mod c15;
+mod c14;
 
 use util::Ctx;
 
@@ -77,6 +78,7 @@ fn main() {
         ("gen", "C18") => c18::gen(&mut ctx, seed),
         ("gen", "C19") => c19::gen(&mut ctx),
         ("gen", "C15") => c15::gen(&mut ctx),
+        ("gen", "C14") => c14::gen(&mut ctx),
         ("c15worker", name) => { c15::worker(name); return; }
         ("c18case", idx) => { let i: usize = idx.parse().unwrap_or(0); c18::run_one(&mut ctx, i); }
         _ => { eprintln!("unknown command"); std::process::exit(2); }
